@@ -252,8 +252,10 @@ prop('C18', title='State-vector sync merges monotonically and announces exactly 
                 'running; sync_handler and the suppression period: a steady instance enters suppression iff the sender is behind or names '
                 'unknown nodes, the merge of the period starts as exactly that vector, later vectors are folded in entry-wise, and the '
                 'periodic timer is pushed back only when no sync Interest is due now (a publication waiting for the timer task is not '
-                'postponed: one defect found and fixed there). Timing (when timers fire) and the content of emitted vectors are a bounded '
-                'stand-in on a virtual clock.',
+                'postponed: one defect found and fixed there); express_sync_interest (local vector with ANY number of entries): exactly '
+                'one Interest, fire-and-forget, signed with the Interest signer, named <sync prefix>/<encoded vector>, and the vector '
+                'carries every local entry exactly once with its sequence number and nothing else (the full vector). Timing (when '
+                'timers fire) and the byte-level encoding of the emitted vector are a bounded stand-in on a virtual clock.',
      level_note='Quantified obligations (maps, exists) are discharged by z3 with MBQI; a false one may come back unknown (reported '
                 'as undecided, never as holding). Wall-clock arithmetic is opaque.',
      technique=T_MIXED)
